@@ -4,3 +4,5 @@ pub mod dsyms;
 pub mod covers;
 pub mod groups;
 pub mod dsym3;
+pub mod manifold;
+pub mod cubic;
